@@ -393,12 +393,19 @@ class _Algorithm2D:
                     axis=axis, name='data', ensure_2d=ensure_2d, two_d=True
                 )
             else:
-                y, self.x, self.z = _yxz_arrays(
-                    data, self.x, self.z, check_finite=self._check_finite, ensure_2d=ensure_2d
-                )
+                # x and z are set below, after the shape
+                y = _yxz_arrays(
+                    data, None, None, check_finite=self._check_finite, ensure_2d=ensure_2d
+                )[0]
 
+            if not has_x or not has_z:
+                # set the complete shape before the x- and z-values so that other threads using
+                # this object never see x- or z-values without the corresponding shape and size
+                self._shape = (
+                    self._shape[0] if has_x else y.shape[-2],
+                    self._shape[1] if has_z else y.shape[-1]
+                )
             if not has_x:
-                self._shape = (y.shape[-2], self._shape[1])
                 self.x = np.linspace(-1, 1, self._shape[0])
             elif require_unique_xz and not self._validated_x:
                 if np.any(self.x[1:] == self.x[:-1]):
@@ -406,7 +413,6 @@ class _Algorithm2D:
                 else:
                     self._validated_x = True
             if not has_z:
-                self._shape = (self._shape[0], y.shape[-1])
                 self.z = np.linspace(-1, 1, self._shape[1])
             elif require_unique_xz and not self._validated_z:
                 if np.any(self.z[1:] == self.z[:-1]):
